@@ -54,9 +54,11 @@ func ExpandMacros(query string) (string, error) {
 	})
 
 	for _, pair := range slice {
+		// The lookahead skips over the escaped characters (e.g. `\"`)
+		// such that an escaped quote does not end a string literal.
 		// A macro is a standalone identifier: it's neither a part of a longer
 		// identifier nor a segment of a dotted path (e.g. `httpVersion`, `request.http`).
-		regex := regexp2.MustCompile(fmt.Sprintf(`(?<![\w.])(%s)(?![\w.])(?=(?:[^"]|"[^"]*")*$)`, pair.Macro), regexp2.None)
+		regex := regexp2.MustCompile(fmt.Sprintf(`(?<![\w.])(%s)(?![\w.])(?=(?:[^"\\]|\\.|"(?:[^"\\]|\\.)*")*$)`, pair.Macro), regexp2.Singleline)
 		query, err = regex.Replace(query, pair.Expanded, -1, -1)
 		if err != nil {
 			return query, err
